@@ -122,7 +122,7 @@ func init() {
 	shape := "invoice skeletons: 1..2 lines (price with currency or currency+2 decimals, quantity with 0 or 2 decimals, VAT 21% or 10%, optional line discount percent/fixed, optional line charge percent/fixed/rate), optional document discount and charge (percent/fixed), optional advance (percent/fixed) and percentage due date, optional tax-included prices; ALL prices, quantities and fixed amounts symbolic of either sign (|v| <= 2^32); EUR"
 	reg(billCfg("C03", `^H_C03_`, []string{shape, "currency rounding rule; fixed amounts at currency precision; a supplied rounding amount next to a fixed advance; one line with every line-level construction (H_C03_LineVariants)"}, []string{shape + "; quantities from {3, -2, 7} on the first line; the larger alternatives of the skeleton (fixed line and document charges, a percentage advance alone); fully symbolic quantities and a second line with the full variety were tried, did not complete within the budget and are not claimed"},
 		[]string{"more than 2 lines; sub-line breakdowns; foreign-currency items; regime-default rule selection (the rule is passed explicitly)"}))
-	reg(billCfg("C04", `^H_C04_`, []string{shape, "one line; both rounding rules; fixed amounts with currency or currency+2 decimals; second calculation from the first one's heap with the tax summary kept or dropped; foreign-currency item with alternative price or exchange rate (H_C04_AltPrice); line price built from a breakdown of 1..2 sub-lines with group / sub-line currencies (H_C04_Breakdown)"}, []string{shape + "; one line; also JPY; tax-included prices by choice; the larger alternatives of the skeleton (fixed charges, a percentage advance alone, fixed amounts with two more decimals); quantities from {3, -2, 7}"},
+	reg(billCfg("C04", `^H_C04_`, []string{shape, "one line; both rounding rules; fixed amounts with currency or currency+2 decimals; second calculation from the first one's heap with the tax summary kept or dropped; foreign-currency item with alternative price or exchange rate (H_C04_AltPrice); line price built from a breakdown of 1..2 sub-lines with group / sub-line currencies (H_C04_Breakdown)"}, []string{shape + "; one line; quantities from {3, -2, 7} (larger spaces - tax-included prices by choice: 38002 paths clean in 24 minutes, the whole budget; - the bigger alternatives of the skeleton, JPY - explored 56165 / 58857 paths clean in 25 minutes without finishing and are not claimed)"},
 		[]string{"byte identity of encoding/json output, struct-tag driven (un)marshalling, schema.Object insertion, string normalisers and scenario notes (reflection / regexp over unbounded strings)", "amount codec losslessness is C06"}))
 }
 
